@@ -17,6 +17,7 @@ const (
 	ModeFP Mode = iota
 	ModeReal
 	ModeUFloat
+	ModeXReal // extended reals: fin(r) | +inf | -inf | nan with IEEE rules for x/0 and comparisons
 )
 
 func parseMode(s string) Mode {
@@ -25,6 +26,8 @@ func parseMode(s string) Mode {
 		return ModeFP
 	case "ufloat":
 		return ModeUFloat
+	case "xreal":
+		return ModeXReal
 	}
 	return ModeReal
 }
@@ -35,6 +38,8 @@ func (m Mode) String() string {
 		return "fp"
 	case ModeUFloat:
 		return "ufloat"
+	case ModeXReal:
+		return "xreal"
 	}
 	return "real"
 }
@@ -146,6 +151,18 @@ func (c *Ctx) prelude() {
 		c.decl("(define-sort F () (_ FloatingPoint 11 53))")
 	case ModeReal:
 		c.decl("(define-sort F () Real)")
+	case ModeXReal:
+		c.decl("(declare-datatypes ((F 0)) (((xfin (xval Real)) (xpinf) (xninf) (xnan))))")
+		c.decl("(define-fun xisfin ((a F)) Bool ((_ is xfin) a))")
+		c.decl("(define-fun xneg ((a F)) F (ite ((_ is xfin) a) (xfin (- (xval a))) (ite ((_ is xpinf) a) xninf (ite ((_ is xninf) a) xpinf xnan))))")
+		c.decl("(define-fun xadd ((a F) (b F)) F (ite (or ((_ is xnan) a) ((_ is xnan) b)) xnan (ite (and ((_ is xfin) a) ((_ is xfin) b)) (xfin (+ (xval a) (xval b))) (ite ((_ is xfin) a) b (ite ((_ is xfin) b) a (ite (= a b) a xnan))))))")
+		c.decl("(define-fun xsub ((a F) (b F)) F (xadd a (xneg b)))")
+		c.decl("(define-fun xsgn ((a F)) Int (ite ((_ is xfin) a) (ite (> (xval a) 0.0) 1 (ite (< (xval a) 0.0) (- 1) 0)) (ite ((_ is xpinf) a) 1 (ite ((_ is xninf) a) (- 1) 0))))")
+		c.decl("(define-fun xmul ((a F) (b F)) F (ite (or ((_ is xnan) a) ((_ is xnan) b)) xnan (ite (and ((_ is xfin) a) ((_ is xfin) b)) (xfin (* (xval a) (xval b))) (ite (= (* (xsgn a) (xsgn b)) 0) xnan (ite (> (* (xsgn a) (xsgn b)) 0) xpinf xninf)))))")
+		c.decl("(define-fun xdiv ((a F) (b F)) F (ite (or ((_ is xnan) a) ((_ is xnan) b)) xnan (ite (and ((_ is xfin) a) ((_ is xfin) b)) (ite (not (= (xval b) 0.0)) (xfin (/ (xval a) (xval b))) (ite (> (xval a) 0.0) xpinf (ite (< (xval a) 0.0) xninf xnan))) (ite ((_ is xfin) a) (xfin 0.0) (ite ((_ is xfin) b) (ite (>= (xval b) 0.0) a (xneg a)) xnan)))))")
+		c.decl("(define-fun xlt ((a F) (b F)) Bool (and (not ((_ is xnan) a)) (not ((_ is xnan) b)) (ite (and ((_ is xfin) a) ((_ is xfin) b)) (< (xval a) (xval b)) (or (and ((_ is xninf) a) (not ((_ is xninf) b))) (and ((_ is xpinf) b) (not ((_ is xpinf) a)))))))")
+		c.decl("(define-fun xeq ((a F) (b F)) Bool (and (not ((_ is xnan) a)) (not ((_ is xnan) b)) (ite (and ((_ is xfin) a) ((_ is xfin) b)) (= (xval a) (xval b)) (= a b))))")
+		c.decl("(define-fun xle ((a F) (b F)) Bool (or (xlt a b) (xeq a b)))")
 	case ModeUFloat:
 		c.decl("(declare-sort F 0)")
 		c.decl("(declare-fun fbits (F) (_ BitVec 64))")
@@ -405,6 +422,17 @@ func (c *Ctx) strDistinct() string {
 // ---------- floats ----------
 
 func (c *Ctx) floatLit(v float64) string {
+	if c.mode == ModeXReal {
+		switch {
+		case math.IsInf(v, 1):
+			return "xpinf"
+		case math.IsInf(v, -1):
+			return "xninf"
+		case math.IsNaN(v):
+			return "xnan"
+		}
+		return "(xfin " + realLit(v) + ")"
+	}
 	switch c.mode {
 	case ModeFP:
 		if math.IsInf(v, 1) {
@@ -467,6 +495,27 @@ func realLit(v float64) string {
 
 // decimal literal from spec text, exact.
 func (c *Ctx) floatLitText(txt string) string {
+	if c.mode == ModeXReal {
+		v, _ := strconv.ParseFloat(txt, 64)
+		r, ok := new(big.Rat).SetString(txt)
+		if ok {
+			neg := r.Sign() < 0
+			if neg {
+				r.Neg(r)
+			}
+			var s string
+			if r.IsInt() {
+				s = r.Num().String() + ".0"
+			} else {
+				s = fmt.Sprintf("(/ %s.0 %s.0)", r.Num().String(), r.Denom().String())
+			}
+			if neg {
+				s = "(- " + s + ")"
+			}
+			return "(xfin " + s + ")"
+		}
+		return c.floatLit(v)
+	}
 	if c.mode == ModeReal {
 		r, ok := new(big.Rat).SetString(txt)
 		if ok {
@@ -491,6 +540,10 @@ func (c *Ctx) floatLitText(txt string) string {
 }
 
 func (c *Ctx) fbin(op string, a, b string) string {
+	if c.mode == ModeXReal {
+		m := map[string]string{"+": "xadd", "-": "xsub", "*": "xmul", "/": "xdiv"}
+		return "(" + m[op] + " " + a + " " + b + ")"
+	}
 	switch c.mode {
 	case ModeFP:
 		switch op {
@@ -519,6 +572,22 @@ func (c *Ctx) fbin(op string, a, b string) string {
 }
 
 func (c *Ctx) fcmp(op string, a, b string) string {
+	if c.mode == ModeXReal {
+		switch op {
+		case "==":
+			return "(xeq " + a + " " + b + ")"
+		case "!=":
+			return "(not (xeq " + a + " " + b + "))"
+		case "<":
+			return "(xlt " + a + " " + b + ")"
+		case "<=":
+			return "(xle " + a + " " + b + ")"
+		case ">":
+			return "(xlt " + b + " " + a + ")"
+		case ">=":
+			return "(xle " + b + " " + a + ")"
+		}
+	}
 	switch c.mode {
 	case ModeFP:
 		switch op {
@@ -565,6 +634,9 @@ func (c *Ctx) fcmp(op string, a, b string) string {
 }
 
 func (c *Ctx) fneg(a string) string {
+	if c.mode == ModeXReal {
+		return "(xneg " + a + ")"
+	}
 	switch c.mode {
 	case ModeFP:
 		return "(fp.neg " + a + ")"
@@ -587,6 +659,8 @@ func (c *Ctx) goMinMax(isMin bool, a, b string) string {
 		c.declOnce("gominmax", "(define-fun goMin ((x F) (y F)) F (ite (< x y) x y))\n(define-fun goMax ((x F) (y F)) F (ite (> x y) x y))")
 	case ModeUFloat:
 		c.declOnce("gominmax", "(declare-fun goMin (F F) F)\n(declare-fun goMax (F F) F)")
+	case ModeXReal:
+		c.declOnce("gominmax", "(define-fun goMin ((x F) (y F)) F (ite (or ((_ is xninf) x) ((_ is xninf) y)) xninf (ite (or ((_ is xnan) x) ((_ is xnan) y)) xnan (ite (xlt x y) x y))))\n(define-fun goMax ((x F) (y F)) F (ite (or ((_ is xpinf) x) ((_ is xpinf) y)) xpinf (ite (or ((_ is xnan) x) ((_ is xnan) y)) xnan (ite (xlt y x) x y))))")
 	}
 	if isMin {
 		return "(goMin " + a + " " + b + ")"
